@@ -319,6 +319,22 @@ func runC04(c c04Case) (res c04Result) {
 		sort.Strings(res.disagree)
 		res.violation = fmt.Sprintf("handshake completed (initiator ok=%v, responder ok=%v) with different views: %s", iOK, rOK, strings.Join(res.disagree, ", "))
 	}
+	// What the parties hold stays theirs: a node serves many sessions in one
+	// process, so after an unrelated pair of parties (other keys, other
+	// passphrase, another payload of the same length) has run its handshake,
+	// the first pair still holds what it agreed on.
+	if res.violation == "" && res.bothDone && !edited {
+		c2 := c.Cfg
+		c2.Seed = c.Cfg.Seed ^ 0x9e3779b97f4a7c15
+		p2 := newHSPair(c2)
+		p2.run()
+		if !bytes.Equal(p.I.cd.AuthData(), p.auth) {
+			res.violation = fmt.Sprintf("the auth payload held by an initiator that had completed its handshake (%d bytes) changed when an unrelated pair of parties ran a handshake in the same process", len(p.auth))
+		}
+		if p2.I.err == nil && p2.R.err == nil && !bytes.Equal(p2.I.cd.AuthData(), p2.auth) {
+			res.violation = "the second of two handshakes in one process left its initiator with a different auth payload than its responder sent"
+		}
+	}
 	return
 }
 
